@@ -294,6 +294,30 @@ def step (s : St) (w : List String) : St × String :=
           (s, line s s!"last={fmtElems [e]} next={nx}" s!"{n} off={q.off} len={q.len} first={q.first}" [(specR, specC s)])
         | x => (s, line s "refused" (resName x) [(specR, specC s)])
     | _, _, _ => (s, "bad-op")
+  | ["g", "extend", sp, txt, skip, els] =>
+    match parseChar sp, parseText txt, skip.toNat?, (els.splitOn ",").mapM parseText with
+    | some sp, some txt, some skip, some es =>
+      if skip > 8 then (s, "bad-op") else
+      let p0 := (pathSet sp 0 txt).1
+      let skipped : Option Path := (List.range skip).foldl (fun (acc : Option Path) _ =>
+        match acc with
+        | none => none
+        | some p => if p.len = 0 then none else match pathNext p with | .ok (q, _) => some q | _ => none) (some p0)
+      let comps := PathMap.splitPath sp 0 txt
+      match skipped with
+      | none => (s, line s "unbuilt" "-" [(if skip ≤ comps.length then "?" else "unbuilt", specC s)])
+      | some p =>
+        let valid := sp ≠ 0 ∧ es.all (fun e => !e.contains sp) ∧ skip ≤ comps.length
+        let specR := if valid then
+            s!"add={String.join (es.map fun _ => "+")} elems={fmtElems (comps.drop skip ++ es)}"
+          else "*"
+        let built := es.foldl (fun (acc : Path × String) e =>
+          match pushElem acc.1 e with
+          | .ok q => (q, acc.2 ++ "+")
+          | _ => (e.foldl pushChar acc.1, acc.2 ++ "E")) (p, "")
+        let walked := match elems built.1 (built.1.base.length + 2) with | .ok l => fmtElems l | x => resName x
+        (s, line s s!"add={built.2} elems={walked}" s!"off={built.1.off} len={built.1.len}" [(specR, specC s)])
+    | _, _, _, _ => (s, "bad-op")
   | ["g", "rebuild", mode, sp, els, skip, e2] =>
     if mode ≠ "s" ∧ mode ≠ "b" then (s, "bad-op") else
     match parseChar sp, (els.splitOn ",").mapM parseText, skip.toNat?, parseText e2 with
